@@ -406,6 +406,18 @@ func prepareCall(fr *frame, call *ssa.CallCommon) (fn value, args []value) {
 			}
 			return
 		}
+		if nm, ok := nativeMethods[recv.t]; ok {
+			mf := nm[call.Method.Name()]
+			if mf == nil {
+				panic(unsupported{"native object " + recv.t.String() + " has no method " + call.Method.Name()})
+			}
+			rv := recv.v
+			fn = &nativeFunc{name: call.Method.Name(), f: func(i *interpreter, args []value) value { return mf(i, rv, args) }}
+			for _, arg := range call.Args {
+				args = append(args, fr.get(arg))
+			}
+			return
+		}
 		if f := lookupMethod(fr.i, recv.t, call.Method); f == nil {
 			// Unreachable in well-typed programs.
 			panic(fmt.Sprintf("method set for dynamic type %v does not contain %s", recv.t, call.Method))
